@@ -36,3 +36,40 @@ def run(unit, em):
                 em.ok(fn, cname, 'used on every path')
             else:
                 em.violation(fn, cname, 'there is a path through the setter on which the argument `%s` is never used: what the caller passed is silently dropped' % p['n'])
+        # ---- additive: Add*/Insert*/internalAdd* and the plural/singular final/start setters only ever grow a container
+        # field of the automaton: a whole assignment, clear, erase or swap of a field in such a function throws away what
+        # earlier calls stored (SetStatesFinal replacing the final set: seed C12-5).  `SetAlphabet`, `SetSimulation` and
+        # other scalar/handle setters assign by design and are not instances (only container fields count).
+        from vfacts import method_name
+        if not (cls.endswith('Core') and not cls.startswith('BDD')):
+            continue
+        lname = name
+        if not (lname.startswith(('Add', 'Insert', 'internalAdd')) or lname in ('SetStateFinal', 'SetStatesFinal', 'SetStateStart', 'SetExistingStateStart')):
+            continue
+        lose = None
+        grew = False
+        for n in fn.walk(lambdas=False):
+            tgt = None
+            kind = None
+            if n['k'] in ('BinaryOperator', 'CXXOperatorCallExpr') and n.get('op') == '=':
+                ops = n.get('ch') if n['k'] == 'BinaryOperator' else n.get('args')
+                tgt, kind = strip(ops[0]) if ops else None, 'assigned as a whole'
+            elif n['k'] == 'CXXMemberCallExpr' and method_name(n) in ('clear', 'erase', 'swap', 'assign', 'resize'):
+                tgt, kind = strip(n.get('obj')), method_name(n)
+            elif n['k'] == 'CXXMemberCallExpr' and method_name(n) in ('insert', 'emplace', 'push_back') :
+                grew = True
+            if tgt is not None and tgt['k'] == 'MemberExpr' and tgt.get('dk', 'field') in ('field', None) and is_container(unit.ty(tgt)):
+                b = tgt.get('ch') or [tgt.get('obj')]
+                bb = strip(b[0]) if b and b[0] else None
+                if bb is None or bb['k'] == 'CXXThisExpr':
+                    lose = (n, tgt.get('n'), kind)
+        cname = '%s::%s is additive' % (cls, name)
+        if lose:
+            em.violation(lose[0], cname, 'the container field `%s` is %s in an adding setter: everything stored by earlier calls is lost' % (lose[1], lose[2]), 'additive')
+        else:
+            em.ok(fn, cname, 'container fields are only inserted into', 'additive')
+
+
+def is_container(t):
+    t = t.replace('const ', '')
+    return t.startswith(('std::set<', 'std::unordered_set<', 'std::map<', 'std::unordered_map<', 'std::vector<', 'std::list<')) or 'StateSet' in t
